@@ -36,10 +36,7 @@ var c08Scripts = [][]string{
 
 func c08Scens(tier string) []msScen {
 	var out []msScen
-	bound := 2
-	if tier == "thorough" {
-		bound = 3
-	}
+	bound := 2 // thorough: more bases / warm-up points / reader pairs at the same bound, one more deviation for single readers
 	type base struct {
 		cfg   muxCfg
 		warms []int
@@ -107,6 +104,9 @@ func c08Scens(tier string) []msScen {
 							continue
 						}
 						if tier != "thorough" && !((i*7+j)%23 == 0 && wr.writes == 3) {
+							continue
+						}
+						if tier == "thorough" && !((i*7+j)%5 == 0 && (wr.writes == 3 || wr.writes == 5)) {
 							continue
 						}
 						out = append(out, msScen{Prop: "C08", Cfg: b.cfg, Warm: warm, Writes: wr.writes, Params: wr.params, LongSeg: wr.long, Reqs: [][]string{s1, s2}, Bound: bound, Shards: 1})
